@@ -364,7 +364,7 @@ func TestC15Isolation(t *testing.T) {
 		spec := stack.Spec{Base: "mem", BaseMTU: 4096, QueueLen: 1024}
 		w, err := stack.Build(spec, 2, 0)
 		if err != nil {
-			t.Fatalf("harness: %v", err)
+			t.Fatalf("%s", ev.Tag(fmt.Sprintf("harness: %v", err)))
 		}
 		defer w.Close()
 		a, b := w.Nodes[0], w.Nodes[1]
@@ -517,7 +517,7 @@ func TestC15Concurrent(t *testing.T) {
 		spec := stack.Spec{Base: "mem", BaseMTU: 4096, QueueLen: 4096}
 		w, err := stack.Build(spec, 2, 0)
 		if err != nil {
-			t.Fatalf("harness: %v", err)
+			t.Fatalf("%s", ev.Tag(fmt.Sprintf("harness: %v", err)))
 		}
 		defer w.Close()
 		a, b := w.Nodes[0], w.Nodes[1]
